@@ -41,6 +41,7 @@ def run(ck):
     ck.run_rule(x4_one_flag)
     ck.run_rule(x5_x6_control_and_sink)
     ck.run_rule(x7_iteration_loop)
+    ck.run_rule(x8_line_walk_bounded)
     from .c17 import d1_d2_d3
     ck.run_rule(d1_d2_d3)
 
@@ -481,3 +482,76 @@ def x7_iteration_loop(ck):
                    "an iteration that finds no line (root without legal moves) can go on to the next depth: without a depth limit the search of a "
                    "stalemated or mated root never ends and never polls Stop")
         ck.floor("X7", n_dec, 1, "emptiness tests of the reported line inside the deepening loop")
+
+
+def walk_counters(paths, SELF=("param", 1)):
+    """(fields of self stepped by a positive constant on some path: {field: +1 | -1}, all fields of self written anywhere)."""
+    counters, written = {}, set()
+    for p in paths:
+        for e in p.effects:
+            if e[0] == "store" and e[1][0] == "field" and e[1][1] == SELF:
+                f = e[1][2]
+                v = e[2]
+                step = None
+                if v[0] == "bin" and v[1] in ("Add", "AddUnchecked", "Sub", "SubUnchecked"):
+                    ops = (v[2], v[3])
+                    if v[1].startswith("Add") and any(o == e[1] for o in ops) and any((const_value(o) or 0) > 0 for o in ops if o[0] == "const"):
+                        step = 1
+                    if v[1].startswith("Sub") and v[2] == e[1] and v[3][0] == "const" and (const_value(v[3]) or 0) > 0:
+                        step = -1
+                if step is None:
+                    written.add(f)
+                else:
+                    counters[f] = step
+    return counters, written
+
+
+def limit_test(c, tk, counters, written, SELF=("param", 1)):
+    """Is (condition, edge taken) a test of a walk counter against its limit?  -> 'within' | 'beyond' | None.
+    Forms: `counter <op> limit field` for an up-counter (limit never written); `counter <op> 0` / `counter == 0` for a down-counter."""
+    if c[0] != "bin" or c[1] not in ("Gt", "Ge", "Lt", "Le", "Eq", "Ne"):
+        return None
+
+    def self_field(t):
+        return t[2] if t[0] == "field" and t[1] == SELF else None
+    fa, fb = self_field(c[2]), self_field(c[3])
+    taken = bool(tk) if not isinstance(tk, tuple) else (0 in tk[1])   # ('else', (0,)) is the true edge
+    ev = lambda a, b: {"Gt": a > b, "Ge": a >= b, "Lt": a < b, "Le": a <= b, "Eq": a == b, "Ne": a != b}[c[1]]
+    for cnt, other, cnt_left in ((fa, c[3], True), (fb, c[2], False)):
+        if cnt not in counters:
+            continue
+        of = self_field(other)
+        if counters[cnt] > 0 and of is not None and of not in written and of not in counters and c[1] not in ("Eq", "Ne"):
+            beyond = ev(10, 5) if cnt_left else ev(5, 10)
+            within = ev(0, 5) if cnt_left else ev(5, 0)
+            if beyond != within:
+                return "beyond" if taken == beyond else "within"
+        if counters[cnt] < 0 and other[0] == "const" and const_value(other) == 0:
+            at_zero = ev(0, 0)
+            above = ev(3, 0) if cnt_left else ev(0, 3)
+            if at_zero != above:
+                return "beyond" if taken == at_zero else "within"
+    return None
+
+
+def x8_line_walk_bounded(ck):
+    """The principal line is read back by an iterator that follows stored moves from position to position.  Stored entries can form a cycle
+    (a king shuffle), so nothing but a counter ends the walk in general: every yielding path of `next` must (a) have passed a comparison of a
+    counter field with a limit field on the within-limit side, (b) increase that counter by a positive constant, and (c) no path writes the limit.
+    Then at most limit+1 items are yielded and the `.collect()` in the search thread ends."""
+    prog = ck.prog
+    from symex import decision_table
+    from .c03 import NEXT
+    nx = ck.body(NEXT, "X8")
+    paths = decision_table(prog, nx)
+    SELF = ("param", 1)
+    somes = [p for p in paths if p.ret[0] == "agg" and p.ret[1].endswith("Option::Some")]
+    ck.floor("X8", len(somes), 1, "yielding paths of the principal-line iterator")
+    counters, written = walk_counters(paths)
+    for i, p in enumerate(somes):
+        stepped = [e[1][2] for e in p.effects if e[0] == "store" and e[1][0] == "field" and e[1][1] == SELF and e[1][2] in counters]
+        ck.req(bool(stepped), "X8.walk_advances", "next#%d" % (i + 1), nx.where(), "a yielding path of the principal-line iterator does not advance a counter: nothing bounds the number of items it yields")
+        bounded = any(limit_test(c, tk, {f: counters[f] for f in stepped}, written) == "within" for c, tk in p.conds)
+        ck.req(bounded, "X8.walk_bounded", "next#%d" % (i + 1), nx.where(),
+               "a yielding path of the principal-line iterator is not under `counter within limit`: stored entries that form a cycle are followed forever, "
+               "the search thread never finishes its `collect()` and never looks at the stop flag again")
